@@ -6,6 +6,7 @@ import (
 	"fmt"
 	"math/big"
 	"sort"
+	"strings"
 	"sync"
 	"testing"
 	"testing/synctest"
@@ -15,6 +16,7 @@ import (
 	builderclient "github.com/attestantio/go-builder-client"
 	builderapi "github.com/attestantio/go-builder-client/api"
 	builderspec "github.com/attestantio/go-builder-client/spec"
+	eth2client "github.com/attestantio/go-eth2-client"
 	"github.com/attestantio/go-eth2-client/api"
 	apiv1bellatrix "github.com/attestantio/go-eth2-client/api/v1/bellatrix"
 	apiv1capella "github.com/attestantio/go-eth2-client/api/v1/capella"
@@ -57,6 +59,8 @@ type ProposalIn struct {
 type ProposeIn struct {
 	Graffiti     string      `json:"graffiti"` // none | err | bytes
 	GraffitiData []byte      `json:"graffiti_data,omitempty"`
+	NodeClient   string      `json:"node_client,omitempty"` // "" / not (the proposal provider has no NodeClient) | err | name
+	ClientName   []byte      `json:"client_name,omitempty"`
 	Auction      string      `json:"auction"` // none | err | res
 	Providers    []ProvIn    `json:"providers,omitempty"`
 	AllProviders []ProvIn    `json:"all_providers,omitempty"`
@@ -270,8 +274,25 @@ func (e *p1env) Proposal(_ context.Context, opts *api.ProposalOpts) (*api.Respon
 	return &api.Response[*api.VersionedProposal]{Data: makeProposal(e.in.Proposal, opts), Metadata: map[string]any{}}, nil
 }
 
+// p1named is the proposal provider as a single beacon node that can be asked for its client.
+type p1named struct{ *p1env }
+
+func (e p1named) NodeClient(context.Context) (*api.Response[string], error) {
+	if e.in.NodeClient == "err" {
+		return nil, errors.New("scripted node client failure")
+	}
+	return &api.Response[string]{Data: string(e.in.ClientName), Metadata: map[string]any{}}, nil
+}
+
 // ---------------------------------------------------------------------------------------------
 // Running.
+
+func proposalProvider(env *p1env) eth2client.ProposalProvider {
+	if env.in.NodeClient == "err" || env.in.NodeClient == "name" {
+		return p1named{env}
+	}
+	return env
+}
 
 func runPropose(t *testing.T, in *ProposeIn) result {
 	lg := &p1log{}
@@ -319,7 +340,7 @@ func runPropose(t *testing.T, in *ProposeIn) result {
 			standardproposer.WithLogLevel(level),
 			standardproposer.WithMonitor(nullmetrics.New()),
 			standardproposer.WithChainTime(mocks.NewChainTime(32)),
-			standardproposer.WithProposalDataProvider(env),
+			standardproposer.WithProposalDataProvider(proposalProvider(env)),
 			standardproposer.WithValidatingAccountsProvider(env),
 			standardproposer.WithExecutionChainHeadProvider(env),
 			standardproposer.WithProposalSubmitter(env),
@@ -387,7 +408,14 @@ func runPropose(t *testing.T, in *ProposeIn) result {
 		p = Some(Record("pr_version", N(in.Proposal.Version), "pr_blinded", Bool(in.Proposal.Blinded),
 			"pr_present", Bool(in.Proposal.Present), "pr_slot_ok", Bool(in.Proposal.SlotOK)))
 	}
-	inTerm := App("IPropose", Record("p1_graffiti", g, "p1_auction", a, "p1_proposal", p, "p1_sign_ok", Bool(in.SignOK),
+	nc := "NCNot"
+	switch in.NodeClient {
+	case "err":
+		nc = "NCErr"
+	case "name":
+		nc = App("NCName", bytesTerm(in.ClientName))
+	}
+	inTerm := App("IPropose", Record("p1_graffiti", g, "p1_node_client", nc, "p1_auction", a, "p1_proposal", p, "p1_sign_ok", Bool(in.SignOK),
 		"p1_unblind_all", Bool(in.UnblindAll), "p1_unblind_ok", Bool(in.UnblindOK), "p1_submit_ok", Bool(in.SubmitOK)))
 	obsTerm := App("OPropose", Bool(panicked), Record("t_graffiti", bytesTerm(graffiti), "t_signed", Bool(lg.signed),
 		"t_unblind", nlist(unb), "t_submitted", Bool(lg.submitted)))
@@ -431,6 +459,12 @@ func runPropose(t *testing.T, in *ProposeIn) result {
 		}
 	}
 	res.counts = append(res.counts, "graffiti:"+in.Graffiti, "auction:"+in.Auction)
+	if in.Graffiti == "bytes" && strings.Contains(string(in.GraffitiData), "{{CLIENT}}") {
+		res.counts = append(res.counts, "client-template:node-client-"+map[string]string{"": "not", "not": "not", "err": "err", "name": "name"}[in.NodeClient])
+		if in.NodeClient == "name" {
+			res.nontrivial = true
+		}
+	}
 	return res
 }
 
@@ -460,8 +494,17 @@ func genPropose(r *Rand) *ProposeIn {
 			in.GraffitiData[i] = byte(r.Range(32, 126))
 		}
 		if n >= 10 && r.Bool() {
-			copy(in.GraffitiData, "{{CLIENT}}")
+			copy(in.GraffitiData[r.Intn(n-9):], "{{CLIENT}}")
 		}
+	}
+	switch r.Intn(4) {
+	case 0:
+		in.NodeClient = "not"
+	case 1:
+		in.NodeClient = "err"
+	default:
+		in.NodeClient = "name"
+		in.ClientName = []byte(clientNames[r.Intn(len(clientNames))])
 	}
 	switch r.Intn(4) {
 	case 0:
